@@ -21,13 +21,13 @@ CHECKS = {
    text="In every state reached by every send/flush/save/restart history up to the depth, the complete family of polls (offset 0..cur+2, first, last, next for four stored positions, every stored timestamp and its neighbours; counts 1,2,3,cur+2) is issued and compared field by field with the slice of the list model; vacuity counters show buffer-only, disk-only, disk+buffer, multi-segment and reloaded states were visited.",
    note=PLOG_NOTE),
  "C05": dict(cat="model_checking", engine="E-seq/catalogue", design="§5 C05",
-   technique="explicit-state exploration by re-execution over real TCP handlers: all histories of administrative commands up to a depth in four layered alphabets, each followed by a restart; differential oracle (catalogue before shutdown = after replay)",
+   technique="explicit-state exploration by re-execution over the real TCP and HTTP/JSON handlers: all histories of administrative commands up to a depth in four layered alphabets, each followed by a restart; differential oracle (catalogue before shutdown = after replay)",
    text="Streams, topics/partitions/messages, consumer groups and users/tokens are explored in four layered alphabets that mix server-assigned and client-chosen ids, addressing by number and by name, deletions and re-creations. Every history ends with a restart (restarts also occur inside histories); start-up must succeed and ids, names, settings, partition sets, message contents, stored offsets, groups, users, permissions and token names/expiry must be identical before and after.",
-   note="Trusted base: harness snapshot/diff code; single blocking-pool thread; in-process restart with the stream-id cursor reset; token expiry compared under a frozen clock. TCP transport only in this revision."),
+   note="Trusted base: harness snapshot/diff code; single blocking-pool thread; in-process restart with the stream-id cursor reset; token expiry compared under a frozen clock. Every layer is explored twice: administrative commands over the binary TCP protocol and over HTTP/JSON (group membership always over TCP). QUIC not covered."),
  "C06": dict(cat="model_checking", engine="E-seq/catalogue", design="§5 C06",
-   technique="explicit-state exploration by re-execution over real TCP handlers: all histories of valid and invalid administrative commands up to a depth; BTreeMap reference catalogue as oracle",
+   technique="explicit-state exploration by re-execution over the real TCP and HTTP/JSON handlers: all histories of valid and invalid administrative commands up to a depth; BTreeMap reference catalogue as oracle",
    text="Every history of valid and invalid commands (duplicate names/ids, renames onto taken names, unknown targets, root deletion) in the four layers is executed; after every command the outcome class (acknowledged/refused) and the complete catalogue - including lookup by name vs by id, cascade on delete, sibling isolation, memberships of two extra clients - are compared with a sequential map model; a refused command must leave catalogue and directory tree unchanged; any panic in a server task is a violation.",
-   note="Trusted base: the reference model (boring BTreeMaps; commands whose outcome the property does not fix are accepted either way); panics are counted by a process-wide hook. TCP transport only in this revision."),
+   note="Trusted base: the reference model (boring BTreeMaps; commands whose outcome the property does not fix are accepted either way); panics are counted by a process-wide hook. Every layer is explored over the binary TCP protocol and over HTTP/JSON. QUIC not covered."),
  "C07": dict(cat="model_checking", engine="E-seq/partition-log", design="§5 C07",
    technique="explicit-state exploration by re-execution: all histories of store/delete/poll-next(auto-commit)/send/purge/group delete+recreate/restart up to a depth over five identities with colliding numeric ids; map (kind,id,partition)->offset as oracle, read back for ALL identities after every step",
    text="Consumers 1, 2, 'cx' and groups 1, 2 (consumer 1 and group 1 share the id) act on two partitions; after every step get_consumer_offset is called for all ten (identity, partition) pairs and must equal the last value stored or auto-committed for exactly that pair; stores beyond the current offset must be refused; next-polls must return the messages right after the stored offset; offsets must survive restarts and vanish with purge, explicit delete and group deletion (and not resurrect when the group id is re-created).",
@@ -37,9 +37,9 @@ CHECKS = {
    text="After every step the assignment read from the group must be exclusive, covering and balanced within one; a partition-less poll must be served from the member's own share, each of its partitions in turn between two reassignments; with next + auto-commit every poll must hand out exactly the next offsets of its partition for the group as a whole (none twice, none skipped), whichever member polls and however membership and partition count change in between.",
    note="Trusted base: invariant checkers. Member order depends on a randomly seeded hash map, so histories are never compared with a predicted assignment. Sessions come from System::add_client."),
  "C09": dict(cat="exploration", engine="E-enum/permissions", design="§5 C09",
-   technique="exhaustive input-domain enumeration: all 1 180 672 permission records x all 35 real rule functions x 4 targets with algebraic oracles (no panic, monotonicity, isolation, id symmetry, root, documented-hierarchy upper bound); plus exhaustive operation x session-state tables on the real System and over TCP",
-   text="The complete space of permission records (2^10 global x optional stream record 2^6 x topic table none/empty/2^4) is evaluated by every real rule function; adding any single flag or record must never turn allowed into denied, stream-1/topic-1 records must never open stream 2/topic 2, stream-level outcomes must not depend on which topic id a topic record is attached to, root is allowed everything, and nothing may be allowed that the most generous reading of the documented hierarchy does not grant. Every System operation is run under never-logged-in and stale sessions (must be refused, nothing may change) and as a user with each single-flag record (never performed when its rule says unauthorized); every SDK call is tried over TCP before login and after logout; permission updates and user deletion are observed on an already open second connection; root cannot be deleted or stripped.",
-   note="Trusted base: the 35-row reference table of sufficient flags (ambiguities resolved towards 'allowed', so it can only under-report); HTTP routes not covered in this revision."),
+   technique="exhaustive input-domain enumeration: all 1 180 672 permission records x all 35 real rule functions x 4 targets with algebraic oracles (no panic, monotonicity, isolation, id symmetry, root, documented-hierarchy upper bound); plus exhaustive operation x session-state tables on the real System, over TCP and over HTTP, every HTTP route without a valid token, and all histories of permission changes on the real Permissioner up to a depth",
+   text="The complete space of permission records (2^10 global x optional stream record 2^6 x topic table none/empty/2^4) is evaluated by every real rule function; adding any single flag or record must never turn allowed into denied, stream-1/topic-1 records must never open stream 2/topic 2, stream-level outcomes must not depend on which topic id a topic record is attached to, root is allowed everything, and nothing may be allowed that the most generous reading of the documented hierarchy does not grant. Every System operation is run under never-logged-in and stale sessions (must be refused, nothing may change) and as a user with each single-flag record (never performed when its rule says unauthorized); every SDK call is tried over TCP before login and after logout; permission updates and user deletion are observed on an already open second connection and on an HTTP session holding an access token; root cannot be deleted or stripped. Every HTTP route (44 method/path pairs) is requested with no, a garbage, a foreign-key and a basic Authorization header: 401 unless the path is declared public, nothing changed. Every history of create-or-update / delete of two users' permissions over 12 records (depth 3 quick, 4 thorough) must leave the Permissioner answering every rule exactly like one initialised from the final records.",
+   note="Trusted base: the 35-row reference table of sufficient flags (ambiguities resolved towards 'allowed', so it can only under-report); the HTTP route table and the list of declared-public paths are transcribed from server/src/http (the list is also re-read from the middleware source of the tree under check)."),
  "C04": dict(cat="fault_enumeration", engine="E-crash", design="§5 C04",
    technique="crash-point and torn-write enumeration on the real write path: the data directory is photographed from the single blocking-pool thread between every two file operations of every workload up to a depth; every photograph, every subset of the file writes queued between two photographs and every torn length of each of them is materialised as a crash image, and the real server is started on every image",
    text="Workloads (sends that roll segments over, flushes, consumer-offset stores, journalled commands, time- and size-based retention, purge) run under wait / no-wait confirmation x fsync x index cache. On every crash image the server must start; the partition must read as a gap-free, duplicate-free run of the accepted messages holding at least everything whose write had completed before the crash point; two further sends must continue at the next offset and read back; a further clean restart must show the same log; the stored consumer offset must be an old or a new value. A torn journal tail may be reported by a start-up error.",
@@ -58,8 +58,8 @@ CHECKS = {
    note="Trusted base: scheduler as for C11; one thread, so no memory-ordering effects; the window between a write being handed to the blocking pool and landing is closed by construction. One open known finding (no-wait: hole while the persister lags)."),
  "C13": dict(cat="exploration", engine="E-enum/codec", design="§5 C13",
    technique="exhaustive boundary-product enumeration of every request type through the SDK encoder and the server's real decoder (plus journal and on-disk encodings), field-by-field comparison of every SDK-decoded response with the server's in-memory entity in bounded state families, and exhaustive malformed-frame families (every cut point, every byte position x masks) watched by a bystander connection and state digests",
-   text="All 44 request types are encoded for the full product of per-field boundary values and decoded by the server decoder (re-exported under the hook flag); the decoded request, validate() and the journal / stored-message round trips must agree. Every get/list/poll response is decoded by the SDK over TCP, by id and by name, in a rich and an empty server state and compared field by field with the entity the server holds. Malformed frames - short length prefixes, wrong declared lengths, unknown code, 20 valid requests truncated at every cut point and with every byte (command code included) xor-ed with 3 masks (thorough: all 255) - are sent before and after login; a second authenticated connection must keep answering, and whenever the answer is an error or a closed connection the catalogue and the data directory must be byte-identical; a process death is a violation (breadcrumb names the frame).",
-   note="Trusted base: comparison code; a flipped frame that is another valid request may take effect (only refused frames must change nothing). Declared frame lengths above 1000 bytes are not sent. HTTP/JSON not covered in this revision."),
+   text="All 44 request types are encoded for the full product of per-field boundary values and decoded by the server decoder (re-exported under the hook flag); the decoded request, validate() and the journal / stored-message round trips must agree. Every get/list/poll response is decoded by the SDK over TCP and over HTTP/JSON, by id and by name, in a rich and an empty server state and compared field by field with the entity the server holds; every message set x partitioning kind is sent over both transports and must be stored exactly as sent. Malformed frames - short length prefixes, wrong declared lengths, unknown code, 20 valid requests truncated at every cut point and with every byte (command code included) xor-ed with 3 masks (thorough: all 255) - are sent before and after login; a second authenticated connection must keep answering, and whenever the answer is an error or a closed connection the catalogue and the data directory must be byte-identical; a process death is a violation (breadcrumb names the frame).",
+   note="Trusted base: comparison code; a flipped frame that is another valid request may take effect (only refused frames must change nothing). Declared frame lengths above 1000 bytes are not sent. HTTP/JSON requests are covered end to end (C05/C06 administrative histories, send_messages here), not by a per-field decoder round trip; malformed HTTP requests are not enumerated."),
  "C17": dict(cat="exploration", engine="E-enum/partition-selection", design="§5 C17",
    technique="exhaustive input-domain enumeration on the real System: all 1- and 2-byte keys and patterned keys of every length x partition counts 1..16 (thorough: +100, 1000); all boundary partition ids; all balanced-send/partition-change histories up to depth 7-9",
    text="Every key is sent twice as a two-message batch to topics with every partition count; after each send exactly one existing partition must have grown by two and it must be the same partition both times; full polls at the end confirm every message sits where it was counted and nowhere else. Partition ids 0, 1, count, count+1, u32::MAX must store exactly there or be rejected with nothing stored. Consecutive balanced sends on an unchanged topic must rotate through 1..n for every history of sends and partition additions/removals up to the depth.",
